@@ -42,7 +42,7 @@ private:
   std::list<std::pair<std::string, Executable*> > _catches;
   static Executable * parse_catch(Parser& p, Context& ctx);
 
-  void docatch(const RuntimeError& rt, Context& ctx) const;
+  void docatch(const RuntimeError& rt, Context& ctx, const RuntimeError& outer) const;
 
 public:
   virtual ~BEGINStatement();
